@@ -95,9 +95,9 @@ fn matches(name: &str, filter: &str) -> bool {
 }
 
 /// `exec` scenario: every instruction matching `filter` x `n` generated states
-pub fn run(seed: u64, tier: &str, filter: &str, out: &mut dyn FnMut(String)) {
+pub fn run(seed: u64, tier: &str, filter: &str, count: Option<u64>, out: &mut dyn FnMut(String)) {
     let names = instruction_names();
-    let n = if tier == "thorough" { 1500 } else { 150 };
+    let n = count.unwrap_or(if tier == "thorough" { 1500 } else { 150 });
     let mut iset = make_iset(false);
     for name in names.iter().filter(|n| matches(n, filter)) {
         for case in 0..n {
